@@ -1562,17 +1562,34 @@ impl UsageValidator {
             for token in sema.skipped.iter() {
                 sema.used.insert(token.syntax());
             }
-            let mut change = true;
-            while change {
-                let count = sema.used.len();
-                for rule in file.rule_decls(cst) {
-                    if (sema.used.contains(&rule.syntax()) || sema.parts.contains(&rule))
-                        && let Some(regex) = rule.regex(cst)
-                    {
-                        Self::set_regex(cst, sema, regex);
+            // first what the start rule reaches, then what the part rules reach on their own
+            let mut from_start = None;
+            for with_parts in [false, true] {
+                let mut change = true;
+                while change {
+                    let count = sema.used.len();
+                    for rule in file.rule_decls(cst) {
+                        if (sema.used.contains(&rule.syntax())
+                            || (with_parts && sema.parts.contains(&rule)))
+                            && let Some(regex) = rule.regex(cst)
+                        {
+                            Self::set_regex(cst, sema, regex);
+                        }
+                    }
+                    change = count != sema.used.len();
+                }
+                if !with_parts {
+                    from_start = Some(sema.used.clone());
+                }
+            }
+            // a part rule that only part rules refer to stays unmarked:
+            // RecoverySetGenerator gives exactly those the start node as predecessor
+            if let Some(from_start) = from_start {
+                for part in sema.parts.iter() {
+                    if !from_start.contains(&part.syntax()) {
+                        sema.used.remove(&part.syntax());
                     }
                 }
-                change = count != sema.used.len();
             }
             for rule in file.rule_decls(cst) {
                 if !sema.used.contains(&rule.syntax()) && !sema.parts.contains(&rule) {
